@@ -19,18 +19,25 @@ SF == INSTANCE FriFoldG WITH Add <- FAdd, Sub <- FSub, Mul <- FMul, Inv <- FInv,
 GenInv == FInv("0x3")
 Group16 == [i \in 1..16 |-> FPow(RootOfUnity(4), BNBitRev(BNOf(i - 1), 4))]
 
-NoFri == [st |-> "none", link |-> FALSE, sq |-> <<>>, dig |-> "none"]
+NoShip == [has |-> FALSE, commits |-> <<>>, last |-> <<>>]
+\* ship: what the prover sent in the commit phase (layer commitments, last-layer coefficients) when the harness recorded it;
+\* nabs: messages absorbed so far
+NoFri == [st |-> "none", link |-> FALSE, sq |-> <<>>, dig |-> "none", ship |-> NoShip, nabs |-> 0]
 FInit == TInit /\ fri = NoFri
 
 \* a harness case: the commit phase's challenges are the verifier's evaluation points unless the case corrupts them
-FReset == TReset /\ fri' = [NoFri EXCEPT !.link = (("corrupt" \in DOMAIN Ev) => Ev.corrupt[1] = "none")]
+FReset == TReset /\ fri' = [NoFri EXCEPT !.link = (("corrupt" \in DOMAIN Ev) => Ev.corrupt[1] = "none"),
+                                       !.ship = IF "ship" \in DOMAIN Ev THEN [has |-> TRUE, commits |-> Ev.ship.commits, last |-> Ev.ship.last] ELSE NoShip]
 
 \* fri_commit: absorb commitment i, squeeze evaluation point i, ..., absorb the last-layer coefficients
 FriAbsorb ==
     /\ Is("absorb") /\ fri.st \in {"none", "commit"} /\ Consume
     /\ Ev.hok
     /\ (fri.dig # "none" => Ev.before = fri.dig)
-    /\ fri' = [fri EXCEPT !.st = "commit", !.dig = Ev.digest]
+    \* every message is absorbed whole and in order: commitment i, ..., then the entire last-layer coefficient vector
+    /\ (fri.ship.has =>
+          Ev.msg = IF fri.nabs < Len(fri.ship.commits) THEN <<fri.ship.commits[fri.nabs + 1]>> ELSE fri.ship.last)
+    /\ fri' = [fri EXCEPT !.st = "commit", !.dig = Ev.digest, !.nabs = @ + 1]
     /\ UNCHANGED tvars_nol
 FriSqueeze ==
     /\ Is("squeeze") /\ fri.st = "commit" /\ Consume
@@ -40,6 +47,7 @@ FriSqueeze ==
 
 FriFirst ==
     /\ Is("fri.first") /\ fri.st \in {"none", "commit"} /\ Consume
+    /\ (fri.ship.has => fri.nabs = Len(fri.ship.commits) + 1)
     /\ Len(Ev.idx) = Len(Ev.y) /\ Len(Ev.x) >= Len(Ev.idx) /\ Len(Ev.x_inv) = Len(Ev.idx)
     /\ \A t \in 1..Len(Ev.idx) : Ev.x_inv[t] = FInv(FMul(Ev.x[t], GenInv))
     /\ fri' = [st |-> "first", link |-> fri.link, sq |-> fri.sq,
